@@ -171,6 +171,8 @@ pub fn routing_adapters(auth: Option<(&Ident, &[Prop])>, targets: Vec<TargetRec>
             Some((id, p)) => Outcome::Ok(profile(id, p)),
             None => Outcome::Err,
         },
+        // which of the adapter error kinds a scripted failure is reported as varies with the scenario
+        error_kind: targets.iter().flat_map(|t| t.identifier.bytes()).fold(targets.len() as u8, |a, b| a.wrapping_mul(31).wrapping_add(b)),
         discovery: Outcome::Ok(targets),
         ..Default::default()
     }
